@@ -25,10 +25,15 @@ RULE = ('exhaustive: every op sequence of length <= 4 over the reduced alphabet 
         'first derived class (via and call kind rotating)} from an unset variable (length <= 3: also from "0" and "1"), and the grid initial value x 9 class '
         'decorators x every spelling x {documented, undocumented} x {sub class created and used before the toggle, created before and first used after it, '
         'created after it, derived from a derived class, created after toggling back} x 5 members x 2 routes x 3 call kinds, all owners revisited after '
-        'toggling back; ODD TARGETS (objects the decorators are not made for: function made with exec, builtin len, functools.partial, '
+        'toggling back; GENERIC CLASSES (class KG(Generic[T]) with / without docstrings, with a checked __init__) and the call kinds unparamInst / paramInst '
+        '(`x = Cls(); x.m(a=1)` / `x = Cls[int](); x.m(a=1)` written in the module of the class): the grid initial value x 9 class decorators x spellings (direct, '
+        'obtained earlier) x 3 generic + 2 ordinary class shapes x {no toggle, toggle}: all five call kinds, the switch flipped, again, a sub class, flipped back, '
+        'a fresh decoration; every sequence of length <= 4 over {enable, disable, unsetenv, four class decorations (three of generic classes), derive from the '
+        'latest, call latest unparamInst / paramInst / wrongType, call first unparamInst} (length <= 3: also from "0" and "1"); ODD TARGETS (objects the decorators are not made for: function made with exec, builtin len, functools.partial, '
         'callable instance, lambda, bound method, staticmethod object, classmethod object, function without annotations, function with a contradictory docstring, class made with exec, Enum, '
-        'dataclass, builtin type int; every class shape handed to a function decorator, every function shape handed to a class decorator): the grid initial value '
-        '(unset, "0", "1", 3 other strings) x 11 decorators x 14 odd shapes + the misfitting ordinary shapes x every spelling (direct and obtained earlier) x {no '
+        'dataclass, builtin type int, and FALSY objects — a callable instance of an empty list subclass, a callable with __bool__ -> False, a class whose metaclass defines '
+        '__len__ -> 0; every class shape handed to a function decorator, every function shape handed to a class decorator): the grid initial value '
+        '(unset, "0", "1", 3 other strings) x 11 decorators x 17 odd shapes + the misfitting ordinary shapes x every spelling (direct and obtained earlier) x {no '
         'toggle, opposite toggle} with all call kinds, a second decoration of the same object under the flipped switch and a toggle back, and every sequence of '
         'length <= 4 over {enable, disable, unsetenv, five decorations of odd / misfitting objects, the first object again, call first / latest result} from an unset '
         'variable (length <= 3: also from "0" and "1") — switched off the specification demands the very object back, unmodified, and a call that shows nothing; '
@@ -59,18 +64,22 @@ CLS_DECOS = ['pedantic_class', 'pedantic_class_require_docstring', 'trace_class'
 SEVEN = FN_DECOS + CLS_DECOS[:4] + ['for_all_methods:pedantic']
 ALL_DECOS = FN_DECOS + CLS_DECOS
 FN_SHAPES = ['fn', 'fn_nodoc', 'afn', 'afn_nodoc']
-CLS_SHAPES = ['K', 'K_nodoc', 'K2', 'K2_nodoc', 'K3', 'K3_nodoc']
+CLS_SHAPES = ['K', 'K_nodoc', 'K2', 'K2_nodoc', 'K3', 'K3_nodoc', 'KG', 'KG_nodoc', 'KG2']
+GENERIC_SHAPES = ['KG', 'KG_nodoc', 'KG2']       # classes that list typing.Generic[T]: instances want type arguments (KG2: with a checked __init__)
 FULL_SHAPES = ['K3', 'K3_nodoc']          # classes with an instance method, a class method, a static method and a property (getter + setter)
 # objects the decorators are not made for: callables that are no plain, source-backed, consistently documented functions ...
 ODD_FN_SHAPES = ['x_exec', 'x_builtin', 'x_partial', 'x_callable', 'x_lambda', 'x_method', 'x_noannot', 'x_baddoc', 'x_staticmethod',
-                 'x_classmethod']
+                 'x_classmethod', 'x_falsy_list', 'x_falsy_bool']
 # ... and classes that are no plain source-backed classes
-ODD_CLS_SHAPES = ['x_exec_cls', 'x_enum', 'x_dataclass', 'x_int']
+ODD_CLS_SHAPES = ['x_exec_cls', 'x_enum', 'x_dataclass', 'x_int', 'x_falsy_cls']
+FALSY_SHAPES = ['x_falsy_list', 'x_falsy_bool', 'x_falsy_cls']      # bool(obj) is False
 ODD_SHAPES = ODD_FN_SHAPES + ODD_CLS_SHAPES
 PROBE_POSITIONAL = {'x_builtin': [1], 'x_enum': 1, 'x_int': 1}      # called as f(<value>) whatever the call kind (no parameter `a`)
 MEMBERS = ['m', 'cm', 'sm', 'pget', 'pset']
 VIAS = ['cls', 'inst']
 KINDS = ['good', 'positional', 'wrongType']
+INST_KINDS = ['unparamInst', 'paramInst']      # `x = Cls(); x.m(a=1)` / `x = Cls[int](); x.m(a=1)` written in the module of the class
+ALL_KINDS = KINDS + INST_KINDS
 OTHER_VALUES = ['', 'true', 'True', '2', '01', ' 1', '1 ', 'on', '00']
 CLAIMED = [None, '0', '1']
 
@@ -100,6 +109,20 @@ def _cls3(name, doc):
             f'    @p.setter\n    def p(self, a: int) -> None:\n{pset}        self.v = a\n')
 
 
+def _helpers(name, generic):
+    """functions in the module of the class that create an instance by an assignment `x = Cls(..)` — what the library looks for in the
+    source of the caller when a checked method of a generic class runs — and call the method conformingly"""
+    sub = '[int]' if generic else ''
+    return (f'\n\ndef use_unparam():\n    x = {name}()\n    return x.m(a=1)\n'
+            f'\n\ndef use_param():\n    x = {name}{sub}()\n    return x.m(a=1)\n')
+
+
+def _gcls(name, doc, init):
+    i = ('    def __init__(self) -> None:\n        """ Init. """\n        self.v = 1\n\n') if init else ''
+    return ('from typing import Generic, TypeVar\n\nT = TypeVar(\'T\')\n\n\n'
+            f'class {name}(Generic[T]):\n{i}    def m(self, a: int) -> int:\n' + (_doc('        ') if doc else '') + '        return a\n')
+
+
 SOURCES = {
     'fn': 'def fn(a: int) -> int:\n' + _doc('    ') + '    return a\n',
     'fn_nodoc': 'def fn_nodoc(a: int) -> int:\n    return a\n',
@@ -107,6 +130,13 @@ SOURCES = {
     'afn_nodoc': 'async def afn_nodoc(a: int) -> int:\n    return a\n',
     'K': _cls('K', True), 'K_nodoc': _cls('K_nodoc', False), 'K2': _cls('K2', True), 'K2_nodoc': _cls('K2_nodoc', False),
     'K3': _cls3('K3', True), 'K3_nodoc': _cls3('K3_nodoc', False),
+    'KG': _gcls('KG', True, False), 'KG_nodoc': _gcls('KG_nodoc', False, False), 'KG2': _gcls('KG2', True, True),
+    # objects whose truth value is False
+    'x_falsy_list': 'class CallableList(list):\n    def __call__(self, a: int) -> int:\n        return a\n\n\nx_falsy_list = CallableList()\n',
+    'x_falsy_bool': ('class Quiet:\n    def __bool__(self) -> bool:\n        return False\n\n    def __call__(self, a: int) -> int:\n        return a\n\n\n'
+                     'x_falsy_bool = Quiet()\n'),
+    'x_falsy_cls': ('class Sized(type):\n    def __len__(cls) -> int:\n        return 0\n\n\n'
+                    'class x_falsy_cls(metaclass=Sized):\n    def __init__(self, a: int = 0) -> None:\n        self.a = a\n'),
     # odd targets that live in a real file
     'x_lambda': 'x_lambda = lambda a: a\n',
     'x_noannot': 'def x_noannot(a):\n    return a\n',
@@ -120,6 +150,8 @@ SOURCES = {
     'x_enum': 'import enum\n\n\nclass x_enum(enum.Enum):\n    A = 1\n    B = 2\n',
     'x_dataclass': 'from dataclasses import dataclass\n\n\n@dataclass\nclass x_dataclass:\n    a: int\n',
 }
+for _name in CLS_SHAPES:
+    SOURCES[_name] += _helpers(_name, _name in GENERIC_SHAPES)
 # odd targets without any source text: made with exec from a string
 SOURCELESS = {
     'x_exec': 'def x_exec(a, b=2):\n    return a\n',
@@ -129,10 +161,15 @@ SOURCELESS = {
 
 def tgt(shape):
     if shape in ODD_SHAPES:
-        return {'cls': shape in ODD_CLS_SHAPES, 'doc': False, 'odd': True}
+        t = {'cls': shape in ODD_CLS_SHAPES, 'doc': False, 'odd': True}
+        if shape in FALSY_SHAPES:
+            t['falsy'] = True
+        return t
     t = {'cls': shape in CLS_SHAPES, 'doc': not shape.endswith('_nodoc')}
     if shape in FULL_SHAPES:
         t['full'] = True
+    if shape in GENERIC_SHAPES:
+        t['generic'] = True
     return t
 
 
@@ -495,6 +532,61 @@ def odd_grid_cases():
     return out
 
 
+GEN_SYMS = [('env', 'enable'), ('env', 'disable'), ('env', 'unsetenv'),
+            ('deco', 'pedantic_class', 'KG'), ('deco', 'for_all_methods:pedantic_require_docstring', 'KG2'), ('deco', 'trace_class', 'KG'),
+            ('deco', 'pedantic_class_require_docstring', 'K'), ('sub', 'last'),
+            ('call', 'last', 'unparamInst'), ('call', 'last', 'paramInst'), ('call', 'first', 'unparamInst'), ('call', 'last', 'wrongType')]
+
+
+def resolve_generic(seq, rot=0):
+    """generic classes, instances created without / with type arguments in the module of the class; spellings rotate"""
+    pairs, nh = [], 0
+    for i, s in enumerate(seq):
+        if s[0] == 'env':
+            pairs.append(([s[1]], None))
+        elif s[0] == 'deco':
+            forms = forms_direct(s[1])
+            pairs.append(op_decorate(s[1], s[2], forms[(i + rot) % len(forms)]))
+            nh += 1
+        elif s[0] == 'sub':
+            pairs.append(op_subclass(max(nh - 1, 0)))
+            nh += 1
+        else:
+            h = 0 if (s[1] == 'first' or nh == 0) else nh - 1
+            pairs.append((['call', h, s[2]], None))
+    return pairs
+
+
+def generic_grid_cases():
+    """every class decorator x every spelling (direct / obtained earlier) x generic class shapes (and two ordinary ones) x initial value:
+    decorate, all five call kinds, flip the switch, all five again, derive a sub class and call through it, flip back, once more"""
+    out = []
+    for env in CLAIMED + ['true']:
+        for d in CLS_DECOS:
+            for shape in GENERIC_SHAPES + ['K', 'K2_nodoc']:
+                spellings = [('direct', f) for f in forms_direct(d)] + [('factory', forms_factory(d)[0])]
+                for how, form in spellings:
+                    for toggle in (None, opposite(env)):
+                        pairs = []
+                        if how == 'factory':
+                            pairs.append(op_factory(d, form))
+                        if toggle:
+                            pairs.append((toggle, None))
+                        pairs.append(op_decorate(d, shape, form) if how == 'direct' else op_apply(0, shape))
+                        pairs += [(['call', 0, k], None) for k in ALL_KINDS]
+                        now = env if not toggle else ('1' if toggle == ['enable'] else '0')
+                        pairs.append((opposite(now), None))
+                        pairs += [(['call', 0, k], None) for k in INST_KINDS + ['wrongType']]
+                        pairs.append(op_subclass(0))
+                        pairs += [(['call', 1, k], None) for k in INST_KINDS + ['positional']]
+                        pairs.append((opposite('1' if opposite(now) == ['enable'] else '0'), None))
+                        pairs += [(['call', 0, 'unparamInst'], None), (['call', 0, 'paramInst'], None), (['call', 1, 'unparamInst'], None)]
+                        pairs.append(op_decorate(d, shape, forms_direct(d)[0]))
+                        pairs += [(['call', 2, 'unparamInst'], None), (['call', 2, 'paramInst'], None)]
+                        out.append(build(env, pairs, 'generic-grid'))
+    return out
+
+
 def random_case(rng, maxlen=30, origin='random', again=0.12, inherit=0.16, odd=0.15):
     vals = [None, '0', '1'] * 4 + OTHER_VALUES + ['0 ', 'false', '١', '1\t', 'enable']
     env = rng.choice(vals)
@@ -559,7 +651,7 @@ def random_case(rng, maxlen=30, origin='random', again=0.12, inherit=0.16, odd=0
         elif nh:
             # near miss on the handle index now and then (one past the end)
             h = nh if rng.random() < 0.02 else (nh - 1 if rng.random() < 0.5 else rng.randrange(nh))
-            pairs.append((['call', h, rng.choice(KINDS)], None))
+            pairs.append((['call', h, rng.choice(KINDS if rng.random() < 0.75 else INST_KINDS)], None))
         else:
             pairs.append(([rng.choice(['enable', 'disable'])], None))
     return build(env, pairs, origin)
@@ -602,6 +694,13 @@ def cases(rng, tier):
                 for env in ([None] if n == 4 else CLAIMED):
                     out.append(build(env, resolve_odd(seq, k), f'exhaustive-odd-{n}'))
     out += odd_grid_cases()
+    # generic classes: instances created without / with type arguments, before and after toggles
+    for n in range(2, 5):
+        for k, seq in enumerate(itertools.product(GEN_SYMS, repeat=n)):
+            if any(s[0] == 'deco' for s in seq) and any(s[0] == 'call' for s in seq):
+                for env in ([None] if n == 4 else CLAIMED):
+                    out.append(build(env, resolve_generic(seq, k), f'exhaustive-generic-{n}'))
+    out += generic_grid_cases()
     if tier == 'thorough':
         syms5 = [s for s in ODD_SYMS if s not in (('env', 'unsetenv'), ('deco', 'pedantic', 'K'), ('call', 'first'))]
         for k, seq in enumerate(itertools.product(syms5, repeat=5)):
@@ -664,6 +763,7 @@ class Impl:
         self.sourceless = {shape: compile(text, '<string>', 'exec') for shape, text in SOURCELESS.items()}
         self.loop = asyncio.new_event_loop()
         self.n = 0
+        self.mods = []
 
     def close(self):
         self.loop.close()
@@ -684,7 +784,17 @@ class Impl:
         mod = types.ModuleType(f'c09_{shape}')
         mod.__file__ = path
         exec(code, mod.__dict__)
-        return getattr(mod, shape)
+        obj = getattr(mod, shape)
+        if shape in CLS_SHAPES:
+            self.mods.append((obj, mod))        # the module of the class: its helper functions create instances by `x = Cls(..)`
+            del self.mods[:-64]
+        return obj
+
+    def module_of(self, cls):
+        for o, mod in reversed(self.mods):
+            if o is cls:
+                return mod
+        return None
 
     def direct(self, d, form, t):
         p = self.p
@@ -727,6 +837,21 @@ class Impl:
     def call(self, handle, kind):
         res, shape = handle
         buf = io.StringIO()
+        mod = self.module_of(res) if (kind in INST_KINDS and shape in CLS_SHAPES) else None
+        if mod is not None:
+            # the class itself (not a class derived from it): instance created in the module of the class, `x = Cls()` / `x = Cls[int]()`
+            n0 = len(self.marks)
+            rejected = False
+            with contextlib.redirect_stdout(buf):
+                try:
+                    (mod.use_unparam if kind == 'unparamInst' else mod.use_param)()
+                except self.PedanticException:
+                    rejected = True
+                except Exception as e:
+                    return ['error', type(e).__name__]
+            return ['called', rejected, bool(buf.getvalue()), len(self.marks) > n0]
+        if kind in INST_KINDS:
+            kind = 'good'         # a function, an odd object, a class derived by the harness: the plain conforming call
         try:
             with contextlib.redirect_stdout(io.StringIO()):      # a traced/timed __init__ prints: not the call under observation
                 f = res().m if (shape in CLS_SHAPES or shape == 'x_exec_cls') else res
@@ -956,6 +1081,10 @@ def judge(case, impl, model):
                 tags.add('T')
             if o[0] == 'called' and op[1] in odd_handles:
                 tags.add('o')          # ... and was called afterwards
+            if op[2] == 'unparamInst' and o == ['called', True, False, False]:
+                tags.add('Y')          # an instance of a generic class created without type arguments was turned away
+                if op[1] < len(deco_en) and i < len(en) and deco_en[op[1]] != en[i]:
+                    tags.add('y')      # ... while the switch said something else than at the decoration
         if sp[i][0] == 'unclaimed':
             tags.add('U')
     nontrivial = bool(tags & set('rpmne'))
@@ -963,7 +1092,7 @@ def judge(case, impl, model):
 
 
 def extra_coverage(results):
-    origins, toggled, inherited, odd_back, odd_called = {}, 0, 0, 0, 0
+    origins, toggled, inherited, odd_back, odd_called, gen_rej, gen_rej_toggled = {}, 0, 0, 0, 0, 0, 0
     for (c, i, m, j) in results:
         o = c.get('x', {}).get('origin', 'corpus')
         origins[o] = origins.get(o, 0) + 1
@@ -971,7 +1100,10 @@ def extra_coverage(results):
         inherited += 'H' in j['tag']
         odd_back += 'O' in j['tag']
         odd_called += 'o' in j['tag']
+        gen_rej += 'Y' in j['tag']
+        gen_rej_toggled += 'y' in j['tag']
     return {'cases_by_origin': origins, 'cases_calling_after_a_toggle': toggled,
             'cases_reaching_an_inherited_member_through_a_sub_class_after_a_toggle': inherited,
             'cases_in_which_an_odd_object_comes_back_unchanged': odd_back, 'cases_calling_such_an_object_afterwards': odd_called,
+            'cases_turning_away_an_unparametrised_instance_of_a_generic_class': gen_rej, 'of_these_after_a_toggle': gen_rej_toggled,
             'ops_run': sum(len(c['c']['ops']) for (c, _, _, _) in results)}
